@@ -10,7 +10,7 @@ from __future__ import annotations
 import ast
 from typing import Iterable, List, Optional, Sequence, Set
 
-from .core import assigned_names, norm
+from .core import assigned_names, norm, order_index
 from .paths import enumerate_paths
 
 _PATH_CACHE = {}
@@ -43,6 +43,11 @@ def truth_of(cond: ast.AST, outcome: bool, texts: Set[str]) -> Optional[bool]:
             return False if outcome else True
         if t in (f"len({x}) == 1", f"len({x}) > 0", f"len({x}) >= 1", f"len({x}) > 1") and outcome:
             return True
+        if outcome and isinstance(cond, ast.Compare) and len(cond.ops) == 1 and norm(cond.left) == f"len({x})" and isinstance(cond.comparators[0], ast.Constant) \
+                and isinstance(cond.comparators[0].value, int):
+            k = cond.comparators[0].value
+            if (isinstance(cond.ops[0], ast.Gt) and k >= 0) or (isinstance(cond.ops[0], (ast.GtE, ast.Eq)) and k >= 1):
+                return True
         if t == f"len({x}) == 0" and not outcome:
             return True
         if t == f"isinstance({x}, str)" and outcome:
@@ -89,6 +94,23 @@ def guarded(fn: ast.FunctionDef, use: ast.AST, texts: Iterable[str]) -> bool:
     if local_guard(use, texts):
         return True
     roots = {_root(t) for t in texts}
+    # locals that name a condition: bound once, to a comparison / boolean combination, and the guarded names are not rebound afterwards
+    # (a rebinding resets `state` anyway, so a stale flag can only be used to *lose* a guard when the root is rebound between flag and test:
+    # that order is checked through `state = False` on the rebinding event followed by the flag test -> handled by requiring the flag's
+    # definition to come after every rebinding of the roots)
+    flags = {}
+    binds = {}
+    for x in ast.walk(fn):
+        if isinstance(x, (ast.Assign, ast.AugAssign, ast.AnnAssign, ast.For, ast.NamedExpr, ast.With)):
+            for nm in assigned_names(x):
+                binds.setdefault(nm, []).append(x)
+    for nm, bs in binds.items():
+        if len(bs) == 1 and isinstance(bs[0], ast.Assign) and len(bs[0].targets) == 1 and isinstance(bs[0].targets[0], ast.Name) \
+                and isinstance(bs[0].value, (ast.BoolOp, ast.Compare, ast.Call)) and bs[0] in fn.body:
+            oi = order_index(fn)
+            later_rebind = any(oi.get(id(b), 0) > oi.get(id(bs[0]), 0) for r_ in roots for b in binds.get(r_, []))
+            if not later_rebind:
+                flags[nm] = bs[0].value
     contains = lambda node: any(n is use for n in ast.walk(node))  # noqa: E731
     n_paths = 0
     for p in paths_of(fn):
@@ -101,6 +123,16 @@ def guarded(fn: ast.FunctionDef, use: ast.AST, texts: Iterable[str]) -> bool:
                     hit = True
                     break
                 r = truth_of(ev[1], ev[2], texts)
+                if r is None and isinstance(ev[1], ast.Name) and ev[1].id in flags:
+                    # a named condition: `ok = isinstance(x, str) and len(x) > 2` ... `if not ok: return`
+                    d = flags[ev[1].id]
+                    parts = d.values if isinstance(d, ast.BoolOp) else [d]
+                    if (isinstance(d, ast.BoolOp) and isinstance(d.op, ast.And) and ev[2]) or (isinstance(d, ast.BoolOp) and isinstance(d.op, ast.Or) and not ev[2]) \
+                            or not isinstance(d, ast.BoolOp):
+                        for c_ in parts:
+                            r_ = truth_of(c_, ev[2], texts)
+                            if r_ is not None:
+                                r = r_
                 if r is not None:
                     state = r
             elif ev[0] == "stmt":
